@@ -318,12 +318,142 @@ theorem functionDeclP_ok (l : PL) (hwf : WFPL l) (hty : ∀ x ∈ l.names, env.t
     attrOrCrash_some, h7]
   rfl
 
+/-! ## the parameter list `( void )` -/
+
+/-- the `Typename` of the unnamed parameter `void` at position `n` -/
+def voidParam (n : Nat) : Val :=
+  mk .Typename (tc n) [.none, .list [], .none, mk .TypeDecl none [.none, .list [], .none, identType (tc n) ["void"]]]
+
+/-- the `ParamList` of `( void )` -/
+def voidList (n : Nat) : Val := mk .ParamList (tc n) [.list [voidParam n]]
+
+/-- **`_parse_parameter_declaration`** on the unnamed parameter `void` -/
+theorem paramVoid_ok (s : PState) (rest : List Tk) (hs : SeesT env s (("VOID", "void") :: ("RPAREN", ")") :: rest))
+    (F : Nat) (hF : 8 ≤ F) :
+    ∃ s', run F .parameterDeclaration s = .ok (voidParam s.idx) s' ∧ SeesT env s' (("RPAREN", ")") :: rest) ∧
+      s'.idx = s.idx + 1 := by
+  obtain ⟨G, rfl⟩ : ∃ G, F = G + 1 := ⟨F - 1, by omega⟩
+  have hsp : SpecToks false [("VOID", "void")] := by simp [SpecToks, typeSpecSimple]
+  have hfo : FollowSpec (("RPAREN", ")") :: rest) := by intro k v r h; cases h; decide
+  obtain ⟨s1, h1, hs1, hi1⟩ := specs_loop [("VOID", "void")] {} false false none s _ G hsp hfo hs (by simp; omega) (fun _ => rfl)
+  have h1' : run G (.declSpecsLoop none false none) s =
+      .ok (some (foldSpec s.idx {} [("VOID", "void")]), true, firstCoord none s.idx [("VOID", "void")]) s1 := h1
+  obtain ⟨s2, h2, hs2, hi2, _⟩ := peekType_spec s1 _ hs1
+  obtain ⟨s3, h3, hs3, hi3⟩ := TypeName.abstractStars_ok [] (by intro q h; cases h) s2 ")" rest
+    (by simpa [starsFlat] using hs2) G (by simp [starsNtoks]; omega)
+  refine ⟨s3, ?_, hs3, by simp [starsNtoks] at hi3; simp at hi1; omega⟩
+  have hfix := TypeName.fixTypename_ok (tc s.idx) [] [] ("void", tc s.idx) [] s3
+  simp only [chainVal, TypeName.tnPre, TypeName.tnPost, TypeName.tdAbs, typeNodes, List.map_cons, List.map_nil] at hfix
+  have hstart : startsDeclarator false s1 = .ok false s2 := by
+    simp only [startsDeclarator, DeclSkel.bnd, h2, List.head?_cons, Option.map_some, DeclSkel.pur]
+    rfl
+  have hfold : foldSpec s.idx {} [("VOID", "void")] = { type := [identType (tc s.idx) ["void"]] } := by
+    simp [foldSpec, addTok, typeQualifier, storageClass, functionSpec]
+  rw [hfold] at h1'
+  have hbp : buildParameterDeclaration { type := [identType (tc s.idx) ["void"]] } Val.none (firstCoord none s.idx [("VOID", "void")]) s3 =
+      .ok (voidParam s.idx) s3 := by
+    simp only [buildParameterDeclaration, DeclSkel.bnd, DeclSkel.pur, List.length_cons, List.length_nil, Nat.lt_irrefl,
+      decide_false, Bool.false_and, Bool.false_eq_true, ↓reduceIte, Val.truthy, firstCoord]
+    exact hfix
+  show pParameterDeclaration (run G) s = _
+  simp only [pParameterDeclaration, pDeclSpecs, DeclSkel.bnd, h1', requireSpec, Bool.not_true, Bool.false_and,
+    Bool.false_eq_true, ↓reduceIte, DeclSkel.pur, hstart, h3, starPairs, List.map_nil, List.reverse_nil]
+  have hne : ([identType (tc s.idx) ["void"]] : List Val).isEmpty = false := rfl
+  simp only [hne, Bool.false_eq_true, ↓reduceIte]
+  exact hbp
+
+/-- **`_parse_function_decl`** on `( void )` followed by the `{` of a function body -/
+theorem functionDeclV_ok (base : Val) (hbase : base.isNode = true) (s : PState) (rest : List Tk)
+    (hs : SeesT env s (("LPAREN", "(") :: ("VOID", "void") :: ("RPAREN", ")") :: ("LBRACE", "{") :: rest)) (G : Nat)
+    (hF : 10 ≤ G) :
+    ∃ s', run (G + 1) (.functionDecl base) s =
+        .ok (chainVal [.fn (X.coordOfVal base) (voidList (s.idx + 1))] .none) s' ∧
+      SeesT env s' (("LBRACE", "{") :: rest) ∧ s'.idx = s.idx + 3 := by
+  obtain ⟨G', rfl⟩ : ∃ G', G = G' + 1 := ⟨G - 1, by omega⟩
+  obtain ⟨s1, h1, hs1, hi1⟩ := expect_same s "LPAREN" "(" _ hs
+  obtain ⟨s2, h2, hs2, hi2⟩ := accept_other s1 _ "RPAREN" hs1 (by
+    intro k v r' h; simp only [List.cons.injEq, Prod.mk.injEq] at h; rw [← h.1.1]; decide)
+  obtain ⟨s3, h3, hs3, hi3, _⟩ := peekType_spec s2 _ hs2
+  -- the parameter list
+  obtain ⟨s4, h4, hs4, hi4⟩ := paramVoid_ok s3 _ hs3 G' (by omega)
+  obtain ⟨s5, h5, hs5, hi5, _⟩ := peekType_spec s4 _ hs4
+  obtain ⟨s6, h6, hs6, hi6, _⟩ := peekType_spec s5 _ hs5
+  obtain ⟨s7, h7, hs7, hi7⟩ := expect_same s6 "RPAREN" ")" _ hs6
+  have hco := valCoord_node hbase "base_decl.coord" s7
+  obtain ⟨s8, h8, hs8, hi8, _⟩ := peekType_spec s7 _ hs7
+  refine ⟨s8, ?_, hs8, by omega⟩
+  have e3 : s3.idx = s.idx + 1 := by omega
+  rw [e3] at h4
+  have hloop : run G' (.parameterListLoop [voidParam (s.idx + 1)]) s4 = .ok [voidParam (s.idx + 1)] s5 := by
+    obtain ⟨G'', rfl⟩ : ∃ G'', G' = G'' + 1 := ⟨G' - 1, by omega⟩
+    show pParameterListLoop (run G'') _ s4 = _
+    simp [pParameterListLoop, andM, peekIs, DeclSkel.bnd, h5, DeclSkel.pur]
+  have hptl : run (G' + 1) .parameterTypeList s3 = .ok (voidList (s.idx + 1)) s6 := by
+    show pParameterTypeList (run G') s3 = _
+    have hcf : ∀ st, coordOf (voidParam (s.idx + 1)) st = .ok (tc (s.idx + 1)) st := fun st => rfl
+    simp [pParameterTypeList, DeclSkel.bnd, h4, hcf, hloop, andM, peekIs, h6, DeclSkel.pur, voidList]
+  have hparams : (voidList (s.idx + 1)).getAttr "params" = some (.list [voidParam (s.idx + 1)]) := rfl
+  have hnn : (voidList (s.idx + 1)).isNone = false := rfl
+  have hreg : ∀ st, registerParams [voidParam (s.idx + 1)] st = .ok () st := fun st => rfl
+  have hin : inSet (some "VOID") declStart = true := by decide
+  show pFunctionDecl (run (G' + 1)) base s = _
+  simp only [pFunctionDecl, DeclSkel.bnd, h1, h2, Option.isSome_none, Bool.false_eq_true, ↓reduceIte, startsDeclaration, h3,
+    List.head?_cons, Option.map_some, hin, DeclSkel.pur, hptl, h7, hco, h8, beq_self_eq_true, hnn, Bool.not_false, hparams,
+    attrOrCrash_some, hreg]
+  rfl
+
+/-- a prototype parameter list: named parameters, or `void` -/
+inductive PLV where
+  | named (l : PL)
+  | void
+
+namespace PLV
+def flat : PLV → List Tk
+  | .named l => l.flat
+  | .void => [("VOID", "void")]
+def ntoks : PLV → Nat
+  | .named l => l.ntoks
+  | .void => 1
+def fuel : PLV → Nat
+  | .named l => l.fuel
+  | .void => 9
+def val (n : Nat) : PLV → Val
+  | .named l => l.val n
+  | .void => voidList n
+def names : PLV → List String
+  | .named l => l.names
+  | .void => []
+end PLV
+
+def WFPLV : PLV → Prop
+  | .named l => WFPL l
+  | .void => True
+
+theorem PLV.flat_length (pv : PLV) (h : ∀ l, pv = .named l → l.flat.length = l.ntoks) : pv.flat.length = pv.ntoks := by
+  cases pv with
+  | named l => exact h l rfl
+  | void => rfl
+
+/-- **`_parse_function_decl`** on either form of parameter list in front of a function body -/
+theorem functionDeclPV_ok (pv : PLV) (hwf : WFPLV pv) (hty : ∀ x ∈ pv.names, env.ty x = false) (base : Val)
+    (hbase : base.isNode = true) (s : PState) (rest : List Tk)
+    (hs : SeesT env s (("LPAREN", "(") :: (pv.flat ++ ("RPAREN", ")") :: ("LBRACE", "{") :: rest))) (G : Nat)
+    (hF : pv.fuel + 1 ≤ G) :
+    ∃ s', run (G + 1) (.functionDecl base) s =
+        .ok (chainVal [.fn (X.coordOfVal base) (pv.val (s.idx + 1))] .none) s' ∧
+      SeesT env s' (("LBRACE", "{") :: rest) ∧ s'.idx = s.idx + pv.ntoks + 2 := by
+  cases pv with
+  | named l => exact functionDeclP_ok l hwf hty base hbase s rest hs G hF
+  | void =>
+    obtain ⟨s', h, hs', hi⟩ := functionDeclV_ok base hbase s rest (by simpa [PLV.flat] using hs) G (by simpa [PLV.fuel] using hF)
+    exact ⟨s', h, hs', by simp only [PLV.ntoks]; omega⟩
+
 /-! ## the declarator of a function definition with parameters -/
 
 /-- `name ( parameters )` -/
 structure FD where
   x : String
-  params : PL
+  params : PLV
 
 namespace FD
 def flat (f : FD) : List Tk := ("ID", f.x) :: ("LPAREN", "(") :: (f.params.flat ++ [("RPAREN", ")")])
@@ -333,7 +463,7 @@ def di (n : Nat) (f : FD) : DI := { ms := [.fn (tc n) (f.params.val (n + 2))], x
 end FD
 
 /-- **`_parse_declarator`** on `name ( parameters )` in front of a function body -/
-theorem fdeclarator_ok (f : FD) (hwf : WFPL f.params) (hty : ∀ x ∈ f.params.names, env.ty x = false) (s : PState) (rest : List Tk)
+theorem fdeclarator_ok (f : FD) (hwf : WFPLV f.params) (hty : ∀ x ∈ f.params.names, env.ty x = false) (s : PState) (rest : List Tk)
     (hs : SeesT env s (f.flat ++ ("LBRACE", "{") :: rest)) (F : Nat) (hF : f.fuel ≤ F) :
     ∃ s', run F (.declaratorKind .id true) s = .ok (f.di s.idx).raw s' ∧ SeesT env s' (("LBRACE", "{") :: rest) ∧
       s'.idx = s.idx + f.ntoks := by
@@ -348,7 +478,7 @@ theorem fdeclarator_ok (f : FD) (hwf : WFPL f.params) (hty : ∀ x ∈ f.params.
   obtain ⟨s4, h4, hs4, hi4, _⟩ := peekType_spec s3 _ hs3
   obtain ⟨s5, h5, hs5, hi5, _⟩ := peekType_spec s4 _ hs4
   have hbase : (tdRaw f.x (tc s.idx)).isNode = true := rfl
-  obtain ⟨s6, h6, hs6, hi6⟩ := functionDeclP_ok f.params hwf hty (tdRaw f.x (tc s.idx)) hbase s5 rest hs5 G (by omega)
+  obtain ⟨s6, h6, hs6, hi6⟩ := functionDeclPV_ok f.params hwf hty (tdRaw f.x (tc s.idx)) hbase s5 rest hs5 G (by omega)
   obtain ⟨s7, h7, hs7, hi7, _⟩ := peekType_spec s6 _ hs6
   obtain ⟨s8, h8, hs8, hi8, _⟩ := peekType_spec s7 _ hs7
   refine ⟨s8, ?_, hs8, by simp only [FD.ntoks]; omega⟩
